@@ -634,6 +634,19 @@ func l4Tie(c *Ctx, nGen int, extra []l4Case, noKeepPad bool) {
 		o2 := randOpts(c.R, true)
 		c.Op("specrt "+o2.String()+" "+lang.String()+" "+hx(src), goSpecRT(o2, lang, src))
 		c.Op("specidem "+o2.String()+" "+lang.String()+" "+hx(src), goSpecIdem(o2, lang, src))
+		// the hypothesis of C02's reprint_fixpoint: the re-parsed tree carries the lines on which the
+		// first pass wrote its tokens (programs without subshells and blocks, no SingleLine) —
+		// inside the model (spectr) and on the trees of the Go parser (spectrfile)
+		if s1, ok := f0File(f); ok && !o2.Single && !strings.Contains(s1, "( P ") && !strings.Contains(s1, "( B ") {
+			if out2, perr2, pan2 := o2.printNode(f); perr2 == nil && pan2 == "" {
+				if f2, err2, pan3 := parseIn(out2, lang, syntax.KeepComments(true)); err2 == nil && pan3 == "" && f2 != nil {
+					if s2, ok2 := f0File(f2); ok2 {
+						c.Op("spectr "+o2.String()+" "+lang.String()+" "+hx(src), "transcript")
+						c.Op(fmt.Sprintf("spectrfile %s %d %s %s", o2.String(), len(strings.Fields(s1)), s1, s2), "true")
+					}
+				}
+			}
+		}
 		// scrambled positions
 		if c.R.Chance(50) {
 			f0Scramble(c.R, f, c.R.Chance(70))
